@@ -262,6 +262,49 @@ def case_oracle(case):
     return res
 
 
+def engine_generator_search(ctx, only=None):
+    """PrivacyEngine.make_private(noise_generator=g): the optimizer draws from g itself, g advances, and a second
+    make_private on the same g (training in phases, two optimizers sharing a generator) continues the stream instead of
+    replaying it"""
+    from opacus import PrivacyEngine
+    combos = [("hooks", "flat"), ("functorch", "flat"), ("hooks", "per_layer"), ("ew", "flat"), ("hooks", "adaptive")]
+    plan = [only] if only else [combos[t % len(combos)] + (ctx.rng.randrange(1 << 30),) for t in range(ctx.n(5, 25))]
+    for gsm_mode, clipping, seed in plan:
+        g = torch.Generator().manual_seed(seed)
+        state0 = g.get_state().clone()
+        pe = PrivacyEngine()
+        released = []
+        for phase in range(2):
+            torch.manual_seed(7)
+            model = nn.Linear(4, 3)
+            ds = torch.utils.data.TensorDataset(torch.zeros(8, 4), torch.zeros(8, 3))
+            dl = torch.utils.data.DataLoader(ds, batch_size=4)
+            kw = dict(module=model, optimizer=torch.optim.SGD(model.parameters(), lr=0.0), data_loader=dl, noise_multiplier=1.0, poisson_sampling=False,
+                      max_grad_norm=[1.0, 1.0] if clipping == "per_layer" else 1.0, noise_generator=g, grad_sample_mode=gsm_mode, clipping=clipping)
+            if clipping == "adaptive":
+                kw.update(target_unclipped_quantile=0.5, clipbound_learning_rate=0.2, max_clipbound=10.0, min_clipbound=0.1, unclipped_num_std=2.0)
+            m, opt, loader = pe.make_private(**kw)
+            same_obj = opt.generator is g
+            x, y = next(iter(loader))
+            opt.zero_grad()
+            ((m(x) - y) ** 2).sum(1).mean().backward()
+            opt.step()
+            released.append([p.grad.clone() for p in model.parameters()])
+            ctx.case(("engine-generator", gsm_mode, clipping, seed, phase), nontrivial=True, kind=f"engine-generator:{gsm_mode}:{clipping}")
+            if not same_obj:
+                ctx.property_failure(f"C04:user-generator-ignored:engine:{gsm_mode}:{clipping}", "after make_private(noise_generator=g) optimizer.generator is not g",
+                                     {"failing_input": {"oracle": "engine-generator", "gsm_mode": gsm_mode, "clipping": clipping, "seed": seed}})
+                break
+            ctx.validated()
+        else:
+            if torch.equal(g.get_state(), state0):
+                ctx.property_failure(f"C04:user-generator-not-advanced:{gsm_mode}:{clipping}", "two noised steps were released but the user's generator is still in its initial state",
+                                     {"failing_input": {"oracle": "engine-generator", "gsm_mode": gsm_mode, "clipping": clipping, "seed": seed}})
+            elif all(torch.equal(a, b) for a, b in zip(released[0], released[1])):
+                ctx.property_failure(f"C04:noise-stream-restarts:{gsm_mode}:{clipping}", "the step after a second make_private on the same generator released bit-identical noise to the first phase's step",
+                                     {"failing_input": {"oracle": "engine-generator", "gsm_mode": gsm_mode, "clipping": clipping, "seed": seed}})
+
+
 def reproducibility_search(ctx):
     """real torch.normal: same generator state ⇒ same noise; successive steps / parameters differ;
     DistributedPerLayerOptimizer hands the user's generator on"""
@@ -362,6 +405,7 @@ def run(ctx):
         request_cases(ctx)
         history_cases(ctx)
         reproducibility_search(ctx)
+    engine_generator_search(ctx)
 
 
 def replay(ctx, rp):
@@ -372,4 +416,18 @@ def replay(ctx, rp):
             print("REPRODUCED:", res[0], res[1])
             ctx.violations.append(res[0])
             return
+    if isinstance(c, dict) and c.get("oracle") == "engine-generator":
+        class Rec:
+            found = []
+            def case(self, *a, **k): pass
+            def validated(self): pass
+            def property_failure(self, key, what, rp2=None): self.found.append((key, what))
+        rec = Rec()
+        engine_generator_search(rec, only=(c["gsm_mode"], c["clipping"], c["seed"]))
+        for key, what in rec.found:
+            print("REPRODUCED:", key, what)
+            ctx.violations.append(key)
+        if not rec.found:
+            print("not reproduced on this tree")
+        return
     print("replay: rerun ./check C04 with the recorded seed (request-log cases are regenerated from the seed)")
